@@ -49,11 +49,18 @@ META = {
     'rule': 'one CBMC job per (implementation, direction, message shape); every item value (all bit patterns of every numeric type, every string/blob byte, the what code) is a solver '
             'variable; the job proves byte-for-byte equality with the reference encoding (build) or value-for-value equality with the encoded values (parse). Non-trivial iff the witness is reachable.',
     'bounds': 'the shapes of lib/wire.py std_shapes: every common type, 1-4 items, strings/blobs of 0-3 bytes, 1-3 fields, one (thorough: two) nesting levels',
-    'outside': 'lang/python3 (not executable symbolically here); shapes beyond the listed ones; the C++ implementation is compared with the same reference in its own jobs',
+    'outside': 'lang/python3 (not executable symbolically here); shapes beyond the listed ones; for the C++ Message class string CONTENT bytes are job constants (lengths 0-3) and zero-length raw items cannot be written through Message::AddData; the 8-byte stream frame is compared in C03 for the C gateways only',
     'assumptions': ['malloc never fails', 'the reference encoder lib/wire.py is a faithful reading of the documented layout (it shares no code with the implementations)'],
-    'functions_encoded': ['MicroMessage.c: UMAdd*, UMInlineAddMessage, UMFind*, UMGetString, UMFindData, UMFindMessage', 'MiniMessage.c: MMPut*Field, MMFlattenMessage, MMGetFlattenedSize, MMUnflattenMessage, MMGet*Field'],
+    'functions_encoded': ['Message.cpp/String.cpp/ByteBuffer.cpp closure: Message::Add*, Flatten, FlattenedSize, Unflatten, Find* (built with DISABLE_OBJECT_POOLING, MUSCLE_AVOID_TAGGED_POINTERS)', 'MicroMessage.c: UMAdd*, UMInlineAddMessage, UMFind*, UMGetString, UMFindData, UMFindMessage', 'MiniMessage.c: MMPut*Field, MMFlattenMessage, MMGetFlattenedSize, MMUnflattenMessage, MMGet*Field'],
 }
 
 
+def cpp_jobs(tier):
+    """the C++ Message class against the same reference: writer (API -> bytes) and reader (bytes -> values); harnesses shared with C01"""
+    import c01
+    return [j for j in c01.msg_jobs(tier, entries=('harness_msg_flatten', 'harness_msg_parse_ref'))]
+
+
 def run(tier, seed):
-    return vrun.run_property('C08', tier, seed, c_jobs(tier), META)
+    J = c_jobs(tier) + cpp_jobs(tier)
+    return vrun.run_property('C08', tier, seed, J, META, diff_jobs=[j for j in J if j.name in ('msg_flatten mix',)])
